@@ -569,7 +569,7 @@ def iter_next(it):
     return it.sl.ref(it.front - 1)
 
 
-@summary(r'<(?:Rev<)?std::slice::Iter<.*>>? as Iterator>::(all|any)::<.*>')
+@summary(r'#superseded-by-generic_iter_all')
 def iter_all(m, mt, args, tys, dty):
     it = deref(args[0])
     f = args[1]
@@ -1637,6 +1637,22 @@ def generic_iter_all(m, mt, args, tys, dty):
     it, f = args
     is_all = mt.group(1) == 'all'
     holder = [f]
+    if isinstance(deref(f), FnItem):
+        # a function item is a pure predicate: fold it over the remaining elements into ONE condition (no fork per element)
+        conds = []
+        while True:
+            e = it_next(m, it)
+            if e is None:
+                break
+            conds.append(call_callable(m, Ref(holder, 0), [e], 'bool'))
+        if any(c is False for c in conds) and is_all:
+            return False
+        if any(c is True for c in conds) and not is_all:
+            return True
+        sym = [c for c in conds if is_sym(c)]
+        if not sym:
+            return is_all
+        return z3.And(sym) if is_all else z3.Or(sym)
     while True:
         e = it_next(m, it)
         if e is None:
@@ -1688,3 +1704,12 @@ def vec_extend(m, mt, args, tys, dty):
         if e is None:
             return UNIT()
         v.items.append(deref(e) if isinstance(e, Ref) else e)
+
+
+@summary(r'num_integer::div_rem::<(%s)>' % INT)
+def free_div_rem(m, mt, args, tys, dty):
+    x, y = args
+    if m.branch_bool(y == 0):
+        raise Panic('DivByZero', 'div_rem by zero')
+    q, r = m.tdivrem(x, y)
+    return Agg('tuple', '()', [q, r])
